@@ -403,6 +403,12 @@ class NamedQubit:
             alias_index = alias_index.resolve_value(context)
         while isinstance(alias_from, AnnotatedValue):
             alias_from = alias_from.resolve_value(context)
+        if not isinstance(alias_from, Register):
+            raise JaqalError(f"Cannot index {alias_from}: it is not a register")
+        if isinstance(alias_index, float) and alias_index.is_integer():
+            alias_index = int(alias_index)
+        if not isinstance(alias_index, int):
+            raise JaqalError(f"Qubit index {alias_index} is not an integer.")
         return alias_from.resolve_qubit(alias_index, context)
 
     def renamed(self, name):
